@@ -743,6 +743,24 @@ theorem steps_affine (rows : List (List Rat)) (x y cx cy : List Rat) (hxy : x.le
     · simp at hy
   · simp at hx
 
+/-- the all-bounds grid built by `ThetaRZGrid` -/
+def boundsGrid (b0 b1 b2 : List Rat) (off : List Rat) (limits : List (Int × Int)) (geom sym : String) : G :=
+  { steps := .flat [], bounds := [some b0, some b1, some b2], limits := limits,
+    offset := off, geom := geom, sym := sym }
+
+/-- **θ-R-Z (all-bounds) grid: every native coordinate is the midpoint of the two enclosing bounds plus
+the offset**, and is defined exactly when all three indices are inside their bounds -/
+theorem bounds_grid_coords (b0 b1 b2 : List Rat) (ox oy oz : Rat) (limits geom sym) (i j k : Int)
+    (c0 c1 c2 : Rat) (h0 : centroidByBounds i b0 = some c0) (h1 : centroidByBounds j b1 = some c1)
+    (h2 : centroidByBounds k b2 = some c2) :
+    getCoordinates (boundsGrid b0 b1 b2 [ox, oy, oz] limits geom sym) [i, j, k] =
+      some [c0 + ox, c1 + oy, c2 + oz] := by
+  simp [getCoordinates, evaluateMesh, boundsGrid, stepDims, boundDims, selectAt, centroidBySteps, dot, dotv,
+    scatter, List.range, List.range.loop, h0, h1, h2]
+
+example : WF (boundsGrid [0, 1] [0, 2, 5] [0, 10] [0, 0, 0] [(0, 1), (0, 1), (0, 1)] "thetarz" "full") := by
+  refine ⟨rfl, rfl, ?_⟩; simp [boundsGrid, stepDims, List.range, List.range.loop]
+
 /-! ### sequences of pitch changes -/
 
 /-- **a sequence of hex pitch changes ends in exactly the grid built at the last pitch** (no drift,
